@@ -72,6 +72,11 @@ CHECKS = {
         technique="runtime reference-model monitor: substance property queries of the real evaluator vs exact arithmetic over the dumped property table; displayed parts re-read with the C05/C06 reader",
         text="Exhaustive over all substances with unit amount and all their properties: by-name lookup under dimensionless multiples (k S, S*k, S/k), output of an amount given in the input's dimensionality, the inverse query, refusal (conformance error) of amounts of another dimensionality, scaling of every property in replies to k S; chemical formulas over the element symbols with counts up to 2^32-1 against the exact count-weighted sum, and near-miss strings that must not be treated as formulas.",
         note="Ambiguously named properties are skipped as the statement allows; substances shadowed by unit names (C07 rule) and derived substances with their own amount (lusec) are skipped."),
+    "C17": dict(
+        category="exploration", design_ref="DESIGN.md §2 C17",
+        technique="runtime monitor: `units for` replies compared as sets with the registry dump, `factorize` replies multiplied out with an independent dimension algebra, three spellings of every dimensionality compared with each other",
+        text="Exhaustive over every named quantity and every dimensionality occurring in the database, each written as quantity name, as a unit and as a base-unit product, plus random base-unit products: no unit of another dimensionality, no missing non-alias unit, no duplicates, own categories, factorizations that multiply out to X without duplicates, identical answers for all spellings.",
+        note="A factorize request exceeding its watchdog twice is inconclusive here; the alias notion (definition is a bare name) is the registry's."),
 }
 
 PENDING = {}
